@@ -820,6 +820,50 @@ pub fn check_clash_shown(files: &[(String, String)]) -> Result<bool, (String, St
                 }
             }
         }
+    } else {
+        // several documents: every position the server publishes - the range of a diagnostic and,
+        // when the server gives them, the locations of its related information (the other labels) -
+        // names a document of the session and lies inside THAT document, on word boundaries; for a
+        // duplicated name, the text there is the name
+        let uris: Vec<String> = paths.iter().map(|p| format!("file://{}", p)).collect();
+        let mut msgs = vec![lsp_initialize(0), lsp_initialized()];
+        for (k, (_, text)) in files.iter().enumerate() {
+            msgs.push(lsp_did_open(&uris[k], 1, text));
+        }
+        msgs.push(lsp_shutdown(1));
+        msgs.push(lsp_exit());
+        let run = lsp_run(&msgs);
+        if !run.timed_out {
+            let slice_of = |uri: &str, range: &serde_json::Value| -> Result<(String, usize, usize), String> {
+                let k = uris.iter().position(|u| u == uri).ok_or_else(|| format!("names {} which is no document of the session", uri))?;
+                let text = &files[k].1;
+                let at = |p: &serde_json::Value| crate::props::c15::offset_of(text, p["line"].as_u64().unwrap_or(u64::MAX) as usize, p["character"].as_u64().unwrap_or(u64::MAX) as usize, crate::props::c15::Unit::Utf16);
+                match (at(&range["start"]), at(&range["end"])) {
+                    (Some(s), Some(e)) if s <= e => {
+                        label_on_word_boundaries(s, e, text)?;
+                        Ok((text[s..e].to_string(), s, e))
+                    }
+                    _ => Err(format!("range {} is not a range of {}", range, files[k].0)),
+                }
+            };
+            for f in run.frames.iter().filter(|f| f["method"] == "textDocument/publishDiagnostics") {
+                let puri = f["params"]["uri"].as_str().unwrap_or("");
+                for x in f["params"]["diagnostics"].as_array().cloned().unwrap_or_default() {
+                    if x["code"] == "P0030" {
+                        continue;
+                    }
+                    let main = slice_of(puri, &x["range"]).map_err(|e| ("lsp-range".to_string(), format!("{}: the published range {}", x["code"], e)))?;
+                    for r in x["relatedInformation"].as_array().cloned().unwrap_or_default() {
+                        let ruri = r["location"]["uri"].as_str().unwrap_or("");
+                        let rel = slice_of(ruri, &r["location"]["range"]).map_err(|e| ("lsp-related-location".to_string(), format!("{}: related information {:?} {}", x["code"], r["message"].as_str().unwrap_or(""), e)))?;
+                        let word = |t: &str| !t.is_empty() && t.bytes().all(|c| c.is_ascii_alphanumeric() || c == b'_');
+                        if (x["code"] == "P0019" || x["code"] == "P0020") && word(&main.0) && word(&rel.0) && !main.0.eq_ignore_ascii_case(&rel.0) {
+                            return Err(("lsp-related-location".into(), format!("{}: the diagnostic is about {:?}, its related location {:?} in {} covers {:?}", x["code"], main.0, r["message"].as_str().unwrap_or(""), ruri, rel.0)));
+                        }
+                    }
+                }
+            }
+        }
     }
     Ok(true)
 }
